@@ -28,9 +28,9 @@ func (Engine) Info(prop string) core.Info {
 			Stub:  []string{"underlying io.Writer (recording sink with failure/short-write injection)", "underlying io.Reader (chunk tape, (0,nil) reads, error injection)", "independent decoder ref/lzhuf as second judge of 'reproduces the input'"},
 			Assumptions: []string{"library runs on the Go 1.26.8 standard library, not 1.24.0", "input byte strings are generated (plain input generation); the simulated part is the chunking of Write/Read calls and the behaviour of the underlying reader/writer",
 				"the underlying reader returns at most two (0,nil) results in a row (bufio gives up with io.ErrNoProgress after 100)"},
-			QuickRuns:    7000,
-			ThoroughRuns: 150000,
-			WatchdogSec:  120,
+			QuickRuns:    90000,
+			ThoroughRuns: 400000,
+			WatchdogSec:  300,
 		}
 	case "C08":
 		return infoC08()
